@@ -74,10 +74,10 @@ chk("C17", "exploration", "schedule-injecting io.Reader monitor with event log: 
 chk("C18", "fault_enumeration", "fault-injecting io.Reader / io.Writer monitors enumerating the fault offset, plus kernel faults (EISDIR, /dev/full, strace ENOSPC injection) on the file helpers and the CLI",
     "For every document and every offset the stream (or destination) fails once there; the call must return a non-nil error. Fault enumeration is the right level: the quantifier is the fault position, which is finite per document and enumerated.",
     "A fault is a non-EOF error; for TTML only up to the end of the root element. " + TRUST, "DESIGN.md §2 C18")
-chk("C19", "exploration", "determinism monitor: repeated, permuted, cross-process and clock-varied writes with pointer-graph-aware snapshots and the state-digest hook",
+chk("C19", "exploration", "determinism monitor: repeated, permuted, cross-process and clock-varied writes with pointer-graph-aware snapshots, the state-digest hook and a data-segment monitor (every package-level variable of the library, read from the running monitor via its symbol table and debug information)",
     "Each list is written 50 times per writer, in 24..120 writer orders, under two clocks and in fresh processes; outputs must be identical and the list untouched.",
     "Map iteration order is re-randomised by the runtime on every range. " + TRUST, "DESIGN.md §2 C19")
-chk("C20", "exploration", "Go race detector (-race build of the monitor) + sequential-equality oracle + state-digest canary, with observed-overlap evidence",
+chk("C20", "exploration", "Go race detector (-race build of the monitor) + sequential-equality oracle + state-digest canary + data-segment monitor (every package-level variable of the library before/after), with observed-overlap evidence",
     "Rounds of 2..32 goroutines run independent readers, writers and transformations released by a barrier under GOMAXPROCS 2/4/16; a race report, a result differing from the solo run or a changed state digest is a violation; rounds without observed overlap do not count.",
     "The race detector sees only accesses that happened. " + TRUST, "DESIGN.md §2 C20")
 
